@@ -39,20 +39,35 @@ def _py(v):
     return v
 
 
-def make_inputs(cols: dict, kinds=("pandas", "polars", "polars-lazy", "pyarrow", "ibis-sqlite"), chunks=None):
+def make_inputs(cols: dict, kinds=("pandas", "polars", "polars-lazy", "pyarrow", "ibis-sqlite"), chunks=None, dtypes=None):
+    """`dtypes` = {column: numpy dtype name such as "int32", "int16", "uint8", "float32"}: that column is stored in the
+    NARROW type on pandas / Polars / PyArrow (SQLite has no narrow types: the column keeps its natural type there)"""
     import pandas as pd
     import polars as pl
     import pyarrow as pa
     d = {k: [_py(x) for x in v] for k, v in cols.items()}
+    dtypes = dtypes or {}
     out = {}
     if "pandas" in kinds:
-        out["pandas"] = pd.DataFrame(d)
+        out["pandas"] = pd.DataFrame(d).astype(dict(dtypes)) if dtypes else pd.DataFrame(d)
+    plmap = {"int8": pl.Int8, "int16": pl.Int16, "int32": pl.Int32, "int64": pl.Int64, "uint8": pl.UInt8,
+             "uint16": pl.UInt16, "uint32": pl.UInt32, "float32": pl.Float32, "float64": pl.Float64}
+
+    def pl_frame():
+        f = pl.DataFrame(d)
+        return f.with_columns([pl.col(c).cast(plmap[t]) for c, t in dtypes.items()]) if dtypes else f
     if "polars" in kinds:
-        out["polars"] = pl.DataFrame(d)
+        out["polars"] = pl_frame()
     if "polars-lazy" in kinds:
-        out["polars-lazy"] = pl.DataFrame(d).lazy()
+        out["polars-lazy"] = pl_frame().lazy()
+
+    def pa_table():
+        if not dtypes:
+            return pa.table(d)
+        return pa.table({c: pa.array(v, type=getattr(pa, dtypes[c])()) if c in dtypes else pa.array(v)
+                         for c, v in d.items()})
     if "pyarrow" in kinds:
-        t = pa.table(d)
+        t = pa_table()
         if chunks and chunks > 1 and t.num_rows >= chunks:
             step = max(1, t.num_rows // chunks)
             parts = [t.slice(i, step) for i in range(0, t.num_rows, step)]
@@ -60,7 +75,7 @@ def make_inputs(cols: dict, kinds=("pandas", "polars", "polars-lazy", "pyarrow",
             t = pa.concat_tables(parts)
         out["pyarrow"] = t
     if "pyarrow-chunked" in kinds:
-        t = pa.table(d)
+        t = pa_table()
         step = max(1, t.num_rows // 7)
         out["pyarrow-chunked"] = pa.concat_tables([t.slice(i, step) for i in range(0, t.num_rows, step)])
     if "ibis-sqlite" in kinds:
